@@ -242,9 +242,34 @@ AttrEvent ==
 LowValid(e) == e.vrl % 2 = 0 /\ e.vrl >= 20 /\ e.vrl <= 16384 /\ (e.out_chunk = 0 \/ e.out_chunk >= e.vrl)
                /\ \A i \in DOMAIN e.recs : e.recs[i].type \in 0..255
 
+HasFile(fid) == \E i \in DOMAIN cfil : cfil[i].fid = fid
 FileOf(fid) == LET S == { i \in DOMAIN cfil : cfil[i].fid = fid } IN cfil[CHOOSE i \in S : TRUE]
 FileCfg(e) == IF e.op = "lowwrite" THEN [seq |-> e.seq, vrl |-> e.vrl, setid |-> e.setid]
               ELSE LET f == FileOf(e.fid) IN [seq |-> f.seq, vrl |-> f.vrl, setid |-> f.setid]
+
+(* the current specification of file fid, free of the numbering the harness happens to use *)
+ObjPos(objs, oid) == LET S == { i \in DOMAIN objs : objs[i].oid = oid } IN IF S = {} THEN 0 ELSE CHOOSE i \in S : TRUE
+LfPos(lfs, lf) == LET S == { i \in DOMAIN lfs : lfs[i].lf = lf } IN IF S = {} THEN 0 ELSE CHOOSE i \in S : TRUE
+NormVal(objs, v) == IF v.k = "ref" THEN [k |-> "ref", pos |-> ObjPos(objs, v.oid)] ELSE v
+WriteKey(e) ==
+  LET f == FileOf(e.fid)  lfs == LfsOf(clf, e.fid)  objs == SelectSeq(cobj, LAMBDA c : c.fid = e.fid) IN
+  [sul |-> [seq |-> f.seq, vrl |-> f.vrl, setid |-> f.setid],
+   lfs |-> [i \in DOMAIN lfs |-> [id |-> lfs[i].fh_id, seq |-> lfs[i].fh_seq_dec]],
+   objs |-> [i \in DOMAIN objs |->
+              [lf |-> LfPos(lfs, objs[i].lf), cls |-> objs[i].cls, hs |-> objs[i].has_setname, sn |-> objs[i].setname,
+               name |-> objs[i].name, origin |-> objs[i].origin,
+               attrs |-> [a \in DOMAIN objs[i].attrs |->
+                           [label |-> objs[i].attrs[a].label, hv |-> objs[i].attrs[a].has_val,
+                            val |-> [x \in DOMAIN objs[i].attrs[a].val |-> NormVal(objs, objs[i].attrs[a].val[x])],
+                            hu |-> objs[i].attrs[a].has_units, units |-> objs[i].attrs[a].units]]]],
+   nf |-> LET mine == SelectSeq(cnf, LAMBDA x : LfPos(lfs, x.lf) # 0) IN
+            [i \in DOMAIN mine |-> [lf |-> LfPos(lfs, mine[i].lf), pos |-> ObjPos(objs, mine[i].oid), payload |-> mine[i].payload]],
+   frames |-> [i \in DOMAIN e.frames |-> [pos |-> ObjPos(objs, e.frames[i].oid), hr |-> e.frames[i].has_rows, rows |-> e.frames[i].rows]]]
+\* another write event of the same specification and data, by the same route, chunk sizes and compatibility mode, both claimed valid
+SameWrite(sn, e) ==
+  LET o == T.events[sn.ei] IN
+    sn.key = WriteKey(e) /\ o.claim.valid /\ e.claim.valid /\ o.opts.route = e.opts.route /\ o.opts.in_chunk = e.opts.in_chunk
+    /\ o.opts.out_chunk = e.opts.out_chunk /\ o.hc = e.hc /\ o.fid \notin failedw /\ e.fid \notin failedw
 
 BeginWrite ==
   /\ ph = "ev" /\ ei <= NEvents /\ IsWriteOp
@@ -254,9 +279,14 @@ BeginWrite ==
      THEN /\ verdict' = verdict \cup Tag(
                  (IF E.op = "lowwrite" THEN (IF LowValid(E) THEN {"C15.Writable"} ELSE {})
                   ELSE (IF E.claim.valid THEN {"C15.Writable"} ELSE {})
-                  \cup FlagClause(hcm.flag)), ei)
+                  \cup FlagClause(hcm.flag)
+                  \* the same valid specification and data were written before (same route, chunk sizes and mode): raising now is history
+                  \cup (IF E.op = "write" /\ E.claim.valid /\ HasFile(E.fid) /\ \E i \in DOMAIN seen : seen[i].ok /\ SameWrite(seen[i], E)
+                        THEN {"C14.OutcomeIndependent"} ELSE {})), ei)
           /\ ei' = ei + 1 /\ UNCHANGED << ph, rd, nrec, bnd, dec >>
-     ELSE /\ verdict' = verdict \cup Tag(SulClauses(E.file.bytes, FileCfg(E))
+          /\ seen' = IF HighLevel /\ HasFile(E.fid) THEN Append(seen, [key |-> WriteKey(E), ei |-> ei, ok |-> FALSE]) ELSE seen
+     ELSE /\ seen' = seen
+          /\ verdict' = verdict \cup Tag(SulClauses(E.file.bytes, FileCfg(E))
                  \cup (IF HighLevel THEN FlagClause(hcm.flag) ELSE {})
                  \* (unless the unrepresentable input was already refused by the add_* call that carried it)
                  \cup (IF HighLevel /\ E.claim.mustraise # "" /\ E.fid \notin rej THEN {"C12.MustRaise"} ELSE {})
@@ -264,7 +294,7 @@ BeginWrite ==
                           /\ (E.claim.hc_breach # "" \/ CanonBreach(E.fid) \/ DataBreach(E)) THEN {"C17.BreachWritten"} ELSE {}), ei)
           /\ ph' = "vr" /\ rd' = ReaderInit /\ nrec' = 0 /\ bnd' = {80} /\ dec' = << >> /\ UNCHANGED ei
   /\ failedw' = IF HighLevel /\ E.outcome = "raised" THEN failedw \cup {E.fid} ELSE failedw
-  /\ UNCHANGED << tid, cfil, clf, cobj, cnf, rej, hcm, seen, projs >>
+  /\ UNCHANGED << tid, cfil, clf, cobj, cnf, rej, hcm, projs >>
 
 (* (a record with an empty body denotes "no record": the writer emits nothing for an empty set)  *)
 NonEmpty(recs) == SelectSeq(recs, LAMBDA x : Len(x.body) > 0)
@@ -355,29 +385,11 @@ CheckData ==             \* C03 / C08 / C11 / C13 frames, C16 no-format
   /\ ph' = "L4"
   /\ UNCHANGED << tid, ei, rd, nrec, bnd, dec, cfil, clf, cobj, cnf, rej, hcm, seen, projs, failedw >>
 
-(* the current specification of file fid, free of the numbering the harness happens to use *)
-ObjPos(objs, oid) == LET S == { i \in DOMAIN objs : objs[i].oid = oid } IN IF S = {} THEN 0 ELSE CHOOSE i \in S : TRUE
-LfPos(lfs, lf) == LET S == { i \in DOMAIN lfs : lfs[i].lf = lf } IN IF S = {} THEN 0 ELSE CHOOSE i \in S : TRUE
-NormVal(objs, v) == IF v.k = "ref" THEN [k |-> "ref", pos |-> ObjPos(objs, v.oid)] ELSE v
-WriteKey(e) ==
-  LET f == FileOf(e.fid)  lfs == LfsOf(clf, e.fid)  objs == SelectSeq(cobj, LAMBDA c : c.fid = e.fid) IN
-  [sul |-> [seq |-> f.seq, vrl |-> f.vrl, setid |-> f.setid],
-   lfs |-> [i \in DOMAIN lfs |-> [id |-> lfs[i].fh_id, seq |-> lfs[i].fh_seq_dec]],
-   objs |-> [i \in DOMAIN objs |->
-              [lf |-> LfPos(lfs, objs[i].lf), cls |-> objs[i].cls, hs |-> objs[i].has_setname, sn |-> objs[i].setname,
-               name |-> objs[i].name, origin |-> objs[i].origin,
-               attrs |-> [a \in DOMAIN objs[i].attrs |->
-                           [label |-> objs[i].attrs[a].label, hv |-> objs[i].attrs[a].has_val,
-                            val |-> [x \in DOMAIN objs[i].attrs[a].val |-> NormVal(objs, objs[i].attrs[a].val[x])],
-                            hu |-> objs[i].attrs[a].has_units, units |-> objs[i].attrs[a].units]]]],
-   nf |-> LET mine == SelectSeq(cnf, LAMBDA x : LfPos(lfs, x.lf) # 0) IN
-            [i \in DOMAIN mine |-> [lf |-> LfPos(lfs, mine[i].lf), pos |-> ObjPos(objs, mine[i].oid), payload |-> mine[i].payload]],
-   frames |-> [i \in DOMAIN e.frames |-> [pos |-> ObjPos(objs, e.frames[i].oid), hr |-> e.frames[i].has_rows, rows |-> e.frames[i].rows]]]
-
 CheckHistory ==          \* C10 / C11 / C14 same specification => same bytes; C19 caller data
   /\ ph = "L4"
   /\ LET key == WriteKey(E)
-         same == { i \in DOMAIN seen : seen[i].key = key }
+         same == { i \in DOMAIN seen : seen[i].key = key /\ seen[i].ok }
+         failedBefore == \E i \in DOMAIN seen : ~seen[i].ok /\ E.claim.valid /\ SameWrite(seen[i], E)
          diff(i) == LET o == T.events[seen[i].ei] IN
                       IF o.file.bytes = E.file.bytes THEN {}
                       ELSE IF o.opts.route # E.opts.route THEN {"C11.SourceEquivalent"}
@@ -385,8 +397,9 @@ CheckHistory ==          \* C10 / C11 / C14 same specification => same bytes; C1
                       ELSE IF E.fid \in failedw \/ o.fid \in failedw THEN {"C20.FailedWriteRecoverable"}
                       ELSE {"C14.HistoryIndependent"}
          caller == IF E.caller.before = E.caller.after /\ E.caller.keys_same THEN {} ELSE {"C19.CallerDataUnchanged"}
-     IN /\ verdict' = verdict \cup Tag(UNION { diff(i) : i \in same } \cup caller, ei)
-        /\ seen' = Append(seen, [key |-> key, ei |-> ei])
+     IN /\ verdict' = verdict \cup Tag(UNION { diff(i) : i \in same } \cup caller
+                                       \cup (IF failedBefore THEN {"C14.OutcomeIndependent"} ELSE {}), ei)
+        /\ seen' = Append(seen, [key |-> key, ei |-> ei, ok |-> TRUE])
         /\ cnt' = [cnt EXCEPT !.cmp = @ + Cardinality(same)]
   /\ ph' = "ev" /\ ei' = ei + 1 /\ dec' = << >>
   /\ UNCHANGED << tid, rd, nrec, bnd, cfil, clf, cobj, cnf, rej, hcm, projs, failedw >>
